@@ -99,6 +99,89 @@ CHECKS = {
         "level_note": "Trusted: model built from copies. Snapshot.Get results are not overwritten (its documentation forbids it).",
         "assumptions": DBM_ASSUME,
     },
+    "C12": {
+        "test": "TestC12", "level": "exploration", "engine": "component",
+        "technique": "property-based round-trip and damage-containment testing of journal.Writer/Reader (rapid) plus a native Go fuzz target",
+        "quick": {"shards": 16, "n": 2500, "timeout": 600},
+        "thorough": {"shards": 16, "n": 150000, "timeout": 3000},
+        "fuzz": [{"pkg": "./checks", "name": "FuzzC12", "seconds": 240}],
+        "floor": {"quick": 3000, "thorough": 100000},
+        "shrink": False,
+        "rule": "rapid draws record-length lists built to hit block-boundary residues (lengths chosen to leave 0-8 / 9-40 bytes in the 32 KiB block, 0, 1, one block +-20, 2-3 blocks), write split sizes and Flush patterns, then a damage spec: truncation at a drawn offset (biased to block boundaries +-12), 1-3 bit/byte flips, or a zeroed range. "
+                "Oracle: undamaged streams round-trip exactly in strict and tolerant mode; the written stream must parse under the checker's own chunk parser. With damage: never panics; the yielded list is a subsequence of the originals (each byte-equal); tolerant mode must yield every record none of whose 32 KiB blocks contains a damaged byte; strict mode yields exactly a prefix and must report corruption when it fails to deliver a record whose first chunk header is completely present. "
+                "Non-trivial: a record spans blocks and a record ends within 7 bytes of a block end, or damage lands in a chunk header.",
+        "level_text": "Exploration with a complete oracle for the stated framing rules; tens of thousands of generated streams per quick run, millions plus coverage-guided fuzzing in thorough.",
+        "level_note": "Trusted: the checker's own 60-line chunk parser (used to map records to byte extents). CRC forgery by random damage has probability 2^-32 per case.",
+        "assumptions": ["checksums on (the property's setting)", "the checker's own chunk parser is correct"],
+    },
+    "C13": {
+        "test": "TestC13", "level": "exploration", "engine": "component",
+        "technique": "property-based round-trip testing of table.Writer/Reader with cursor-model walks and single-byte alteration (rapid)",
+        "quick": {"shards": 16, "n": 250, "timeout": 600},
+        "thorough": {"shards": 16, "n": 15000, "timeout": 3000},
+        "floor": {"quick": 300, "thorough": 10000},
+        "shrink": False,
+        "rule": "rapid draws sorted key/value sets (0..2000 entries; hostile keys, long shared prefixes, 0xff runs, empty values, values larger than a block), block size 1..4096, restart interval 1..64, compression, bloom bits and filter base, block cache and buffer pool on/off, the comparer (bytewise and contract-conforming custom ones, raw and through the real internal comparer with several versions per user key); then Get/Find/FindKey (filtered and not) of stored keys and of probes between/outside them, OffsetOf monotonicity, range-restricted iterators with drawn walks compared move by move with a cursor model plus full forward/backward passes; then one altered byte at a drawn offset before the footer: every stored key is returned with its own value or a non-not-found error, a scan yields original pairs in order and reports an error if any pair is missing. "
+                "Non-trivial: >=2 data blocks, a range with both bounds strictly inside, and a walk with a direction reversal.",
+        "level_text": "Exploration of the table format's observable contract over generated layouts; damage oracle in its strict form (never not-found for a stored key).",
+        "level_note": "Trusted: cursor model. The footer is not checksummed and is not altered. The empty table is generated for user comparers only (the internal comparer cannot produce one in the DB).",
+        "assumptions": ["alteration is applied before the reader is created"],
+    },
+    "C14": {
+        "test": "TestC14", "level": "exploration", "engine": "component",
+        "technique": "model-based property testing of memdb (rapid) with a sampled concurrent one-writer/many-readers phase",
+        "quick": {"shards": 16, "n": 1500, "timeout": 600},
+        "thorough": {"shards": 16, "n": 100000, "timeout": 3000, "race": True},
+        "floor": {"quick": 2000, "thorough": 50000},
+        "shrink": False,
+        "rule": "rapid draws op lists over hostile keys and all comparers: Put (overwrites changing the value length), Delete (incl. absent keys), Get/Contains, Find, ranged iterator walks against the cursor model, Reset and reuse; Len and Size are compared with the model after every op and slices handed out earlier must keep their contents. About every 8th case adds a concurrent phase: one writer putting 200-3000 keys (with overwrites of varying length) while 2-8 readers walk forwards/backwards and look up: keys strictly ordered, every pair was stored, keys present before the walk are not skipped, a finished Put is visible. "
+                "Non-trivial: overwrite with a different length + delete of an absent key + ranged walk in one case, or a concurrent phase of >=100 puts.",
+        "level_text": "Exploration; the concurrent half samples schedules (thorough runs it under the race detector).",
+        "level_note": "Interleavings are sampled, not enumerated.",
+        "assumptions": ["one writer at a time (the DB's usage)"],
+    },
+    "C15": {
+        "test": "TestC15", "level": "exploration", "engine": "component",
+        "technique": "algebraic-law property testing on the real internal comparer and key codec (rapid + native fuzz target)",
+        "quick": {"shards": 16, "n": 15000, "timeout": 600},
+        "thorough": {"shards": 16, "n": 1500000, "timeout": 3000},
+        "fuzz": [{"pkg": "./checks", "name": "FuzzC15", "seconds": 180}],
+        "floor": {"quick": 50000, "thorough": 300000},
+        "shrink": False,
+        "rule": "rapid draws triples of internal keys built with the real codec (hook): user keys related to a common base (identical, base as prefix, prefix of base, one byte changed to 0x00/0x01/0x7f/0x80/0xfe/0xff) or independent hostile keys, sequence numbers over all 56 bits with boundary bias, both kinds, all seven comparer variants. Laws: decode(encode)=identity and the encoding layout; Compare sign = (user order, seq descending, kind descending); antisymmetry, equality only for identical keys, transitivity; the lookup probe (k,s) sorts before every entry of k not newer than s and after every newer one; for a<b: a <= Separator(a,b) < b and Successor(x) >= x (nil = unchanged), arguments unmodified - on the internal comparer, on each user comparer and on DefaultComparer. "
+                "Non-trivial: equal user keys, prefix-related keys or 0xff runs among the three.",
+        "level_text": "Exploration of the algebraic laws; index routing through shortened keys is exercised end-to-end by C13 in internal-comparer mode.",
+        "level_note": "Separator/Successor are called with an empty dst (the only way the table writer calls them).",
+        "assumptions": [],
+    },
+    "C16": {
+        "test": "TestC16", "level": "exploration", "engine": "component",
+        "technique": "property-based testing: filter no-false-negative law, table-level filtered lookups, and differential replay of DB programs under different filter policies",
+        "quick": {"shards": 16, "n": 250, "timeout": 600},
+        "thorough": {"shards": 16, "n": 12000, "timeout": 3000},
+        "fuzz": [{"pkg": "./checks", "name": "FuzzC16", "seconds": 120}],
+        "floor": {"quick": 1000, "thorough": 30000},
+        "shrink": False,
+        "rule": "three generated case kinds: (set) key sets of 0-10^4 keys x bits-per-key 1-64, one generator reused for several consecutive filters: every added key must be contained; (table) C13 table cases with bloom bits 1/10/64 and filter base 5-14: Find/FindKey(filtered=true) of every stored key; (db) a generated DB program (writes, deletes, batches, compactions, reopen, snapshots and snapshot reads) replayed under seven filter configurations - none, bloom(1/10/64), a custom exact hash-set policy, and two cycles that switch the policy at every reopen with the others as AltFilters - each run compared read-by-read with the model. "
+                "Non-trivial: table with >=3 filter partitions, DB program whose reads reached tables, key set >=1000 or a reused generator.",
+        "level_text": "Exploration; the differential DB part makes every configuration agree with the model, hence with each other.",
+        "level_note": "Trusted: model; the custom hash-set policy in harness/gen is itself free of false negatives.",
+        "assumptions": [],
+    },
+    "C17": {
+        "test": "TestC17", "level": "exploration", "engine": "component",
+        "technique": "property-based testing of generated concurrent cache programs with instrumented values (sampled schedules)",
+        "quick": {"shards": 16, "n": 150, "timeout": 600},
+        "thorough": {"shards": 16, "n": 8000, "timeout": 3000, "race": True},
+        "floor": {"quick": 1000, "thorough": 30000},
+        "shrink": False,
+        "replay_runs": 50,
+        "rule": "rapid draws programs of 1-3 phases x 2-12 goroutines x 20-1500 ops over cache.NewCache(cache.NewLRU(cap)) and NewCache(nil): Get (handle held for a drawn number of later ops), bulk fills that push the hash map through growth and shrinkage, Delete with callback, Evict, EvictNS, EvictAll, SetCapacity, repeated Release of stale handles, final Close(force or not), GOMAXPROCS drawn. Instrumented values check: a handle never carries a finalised value; a value is never finalised while a handle the harness holds is outstanding (except after Close(force)); a constructor never runs while another value of the same key has outstanding handles; every value is finalised exactly once by the end; every deletion callback runs exactly once and not while handles of the value it was aimed at are outstanding; at barriers with all handles released the retained charge is <= capacity and Size()/Nodes() match the instrumentation. "
+                "Non-trivial: overlapping handles on the same key and a Delete issued while a handle was outstanding.",
+        "level_text": "Exploration with sampled interleavings; the oracle is complete for the stated rules on each observed execution.",
+        "level_note": "Interleavings are sampled, not enumerated (race detector in thorough).",
+        "assumptions": [],
+    },
 }
 
 # Properties not claimed (reason); filled automatically with "not built yet" when absent.
